@@ -177,7 +177,7 @@ def kernel_sums(ctx, rule="R05.5"):
         ctx.check(got == want, rule, "%s::%s" % (KS, kname), "returns %s in the order the caller unpacks (estimate first, then variance)" % got, "return-order")
 
 
-def chunks(ctx, rule="R05.5"):
+def chunks(ctx, rule="R05.5", with_kernels=True):
     prog = ctx.prog
     call = prog.func(KB, "Krige.__call__")
     asg = {}
@@ -253,7 +253,8 @@ def chunks(ctx, rule="R05.5"):
               "right-hand-side width equals the slice length (symbolic value of the second extent: %s)" % width, "width")
     uses = sorted({ast.unparse(n) for n in ast.walk(vec) if isinstance(n, ast.Call) and ast.unparse(n.func) == "slice"})
     ctx.check(uses == ["slice(*chunk_slice)"], rule, KB + "::Krige._get_krige_vecs", "every per-target quantity (drift positions, external drift) is cut with the same chunk_slice", "one-slice")
-    kernel_sums(ctx, rule)
+    if with_kernels:
+        kernel_sums(ctx, rule)
 
 
 def variants(ctx, rule="R05.7"):
